@@ -162,6 +162,39 @@ impl Bridge for Dedup {
     }
 }
 
+/// a writer that streams its elements: the real `serialize_iterator` with an inexact size hint,
+/// i.e. the unknown-length form written by real code; read back as a vector
+pub struct Streamed<T>(pub Vec<T>);
+impl<T: BinarySerializer> BinarySerializer for Streamed<T> {
+    fn serialize<O: desert::BinaryOutput>(
+        &self,
+        context: &mut desert::SerializationContext<O>,
+    ) -> desert::Result<()> {
+        let mut it = self.0.iter().filter(|_| true);
+        debug_assert!(it.size_hint().0 != it.size_hint().1.unwrap_or(usize::MAX) || self.0.is_empty());
+        desert::serialize_iterator(&mut it, context)
+    }
+}
+impl<T: BinaryDeserializer> BinaryDeserializer for Streamed<T> {
+    fn deserialize(context: &mut desert::DeserializationContext<'_>) -> desert::Result<Self> {
+        Ok(Streamed(Vec::<T>::deserialize(context)?))
+    }
+}
+impl<T: Bridge> Bridge for Streamed<T> {
+    fn ty() -> Ty {
+        Ty::Seq(Box::new(T::ty()), SeqKind::Vec)
+    }
+    fn register(reg: &mut Registry) {
+        T::register(reg)
+    }
+    fn to_val(&self) -> Val {
+        Val::Seq(self.0.iter().map(|x| x.to_val()).collect())
+    }
+    fn from_val(v: &Val) -> Self {
+        Streamed(seq_from_val(v))
+    }
+}
+
 impl Bridge for Duration {
     fn ty() -> Ty {
         Ty::Duration
